@@ -352,14 +352,16 @@ def c02(tier):
                            exit_sets=some_fail, cancel_sets=flags)
         tasks += local_tasks(["C02"])
         tasks += c02_extra(tier)
-        bounds = "failures inside one queue (local mode and one batch, all finish orders) on G(3); unspawnable commands; G(1..3) x parameter grid at budget 0; 6 REP graphs x 4 parameter sets x exit codes x flags at 1 preemption; local mode on G(1..3) x processes 1-2"
+        tasks += resub_slice_tasks(["C02"], tier, "c02")
+        bounds = "resubmission histories on every 3-job DAG; failures inside one queue (local mode and one batch, all finish orders) on G(3); unspawnable commands; G(1..3) x parameter grid at budget 0; 6 REP graphs x 4 parameter sets x exit codes x flags at 1 preemption; local mode on G(1..3) x processes 1-2"
     else:
         tasks = input_grid_tasks(["C02"], ns=(1, 2, 3))
         tasks += input_grid_tasks(["C02"], ns=(4,), two_groups=False, max_nodes=(1, None), caps=(3,))
         tasks += rep_tasks(["C02"], (2, 0), exit_sets=some_fail, cancel_sets=flags)
         tasks += local_tasks(["C02"], ns=(1, 2, 3, 4))
         tasks += c02_extra(tier)
-        bounds = "failures inside one queue on G(3..4); unspawnable commands; G(1..4) at budget 0; all REP graphs at 2 preemptions; local mode on G(1..4)"
+        tasks += resub_slice_tasks(["C02"], tier, "c02")
+        bounds = "resubmission histories on every 3-job DAG; failures inside one queue on G(3..4); unspawnable commands; G(1..4) at budget 0; all REP graphs at 2 preemptions; local mode on G(1..4)"
     return explore_check("C02", tier, tasks, S_RULE, COMMON_ASSUMPTIONS, dict(bounds=bounds))
 
 
@@ -435,6 +437,8 @@ def _c0304(prop, tier):
         tasks += user_round_tasks([prop], (1, 0), ["indep3", "fork", "chain3"])
         tasks += manual_submitter_tasks([prop], (1, 0), ["pair", "chain2", "fork", "indep3"])
         bounds = "as quick plus exit codes {0,2,255}; all REP graphs x single failures x flags at 2 preemptions"
+    tasks += resub_slice_tasks([prop + "R"], tier, prop.lower())
+    bounds += "; resubmission histories (every 3-job DAG x failing job x flags, refused batch, reruns succeed): final results again complete and all successful"
     return explore_check(prop, tier, tasks, S_RULE, COMMON_ASSUMPTIONS, dict(bounds=bounds))
 
 
@@ -471,12 +475,15 @@ def c05(tier):
     tasks += user_round_tasks(["C05"], (1, 0), ["pair", "chain2"], params=[("sz1-mxN", dict(size=1, max_nodes=None))])
     tasks += user_round_tasks(["C05"], (0, 0) if tier == "quick" else (1, 0), ["indep3", "fork"])
     tasks += manual_submitter_tasks(["C05"], (0, 0) if tier == "quick" else (1, 0), ["pair", "chain2", "fork"])
+    tasks += resub_slice_tasks(["C05"], tier, "c05")
+    tasks += rep_tasks(["C05"], (0, 0) if tier == "quick" else (1, 0), graphs=["chain3", "fork", "join", "diamond"], params=params[1:3],
+                       exit_sets=fail_sets, cancel_sets=lambda n: [(0,) * n, (1,) * n])
     # the order of 'results summary, then flag' is only visible when unprotected files are sync points (L1)
     for t in rep_tasks(["C05"], (0, 0) if tier == "quick" else (1, 0), graphs=["pair", "chain3", "fork"], params=params[2:]):
         t["scen"]["level"] = 1
         t["id"] += "-L1"
         tasks.append(t)
-    bounds = f"REP graphs x max-nodes {{1,2,unset}} at {b[0]} preemption(s) with the recovery actor (try-submit-jobs and show-status -n forms, re-armed up to n_jobs+2 times); G(1..3) x parameter grid at budget 0; a user-run try-submit-jobs at any point; 3 graphs at sync level L1 (results.json / marker accesses are scheduling points)"
+    bounds = f"REP graphs x max-nodes {{1,2,unset}} at {b[0]} preemption(s) with the recovery actor (try-submit-jobs and show-status -n forms, re-armed up to n_jobs+2 times); G(1..3) x parameter grid at budget 0; a user-run try-submit-jobs at any point; failures x cancel flags; resubmission histories on every 3-job DAG; 3 graphs at sync level L1 (results.json / marker accesses are scheduling points)"
     return explore_check("C05", tier, tasks, S_RULE, COMMON_ASSUMPTIONS, dict(bounds=bounds))
 
 
@@ -683,6 +690,8 @@ def c07(tier):
     ns = (1, 2, 3) if tier == "quick" else (1, 2, 3, 4)
     tasks = c07_tasks(ns, tier)
     tasks += c07_walltime_tasks()
+    tasks += resub_slice_tasks(["C07"], tier, "c07")
+    tasks += [t for i, t in enumerate(resub_slice_tasks(["C07"], tier, "c07", with_groups_file=True)) if i % 2 == 0 or tier == "thorough"]
     # dry-run twins: expectation = the first round of the real run (computed by running it)
     step = 3 if tier == "quick" else 2
     base = [t for i, t in enumerate(tasks) if i % step == 0]
@@ -695,7 +704,7 @@ def c07(tier):
         twins.append(_dry_twin(t, fr))
     tasks = tasks + twins
     bounds = (f"all DAGs on {ns} jobs x (count sizes 1..n | time-based estimates {{1,2}}^n x capacity 2/3 min) x try-add on/off x max-nodes x "
-              f"group assignments (second group with different SLURM fields, processes, distributed/verbose options, prefix; group names listed alphabetically and not); walltimes of minutes, hours and days; every batch of every round of the "
+              f"group assignments (second group with different SLURM fields, processes, distributed/verbose options, prefix; group names listed alphabetically and not); walltimes of minutes, hours and days; resubmission histories (also with a new groups file, -s); every batch of every round of the "
               f"default schedule with all finish orders; dry-run twin of every {step}rd/nd scenario compared with the real first round")
     return explore_check("C07", tier, tasks, S_RULE + "; C07 evaluates its oracle at every sbatch (all rounds reached) and on the files a dry run leaves",
                          COMMON_ASSUMPTIONS, dict(bounds=bounds, dry_twins=len(twins), dry_twin_errors=errors[:5]))
@@ -852,6 +861,41 @@ def resub_argv(failed, missing, successful):
     a.append("--missing" if missing else "--no-missing")
     a.append("--successful" if successful else "--no-successful")
     return a
+
+
+def resub_slice_tasks(oracles, tier, prefix, with_groups_file=False):
+    """Resubmission histories for the property-specific checks: every 3-job DAG x failing job x cancel flags,
+    `resubmit-jobs --failed --missing`, reruns succeed (so the final outcome is: everything successful);
+    variants with a refused batch in the first run and with a new groups file (-s)."""
+    import copy
+
+    tasks = []
+    for gi, bb in enumerate(S.dags(3)):
+        if not any(bb):
+            continue
+        for f in range(3):
+            for cancel in ((0, 0, 0), (1, 1, 1)):
+                ec = tuple(1 if k == f else 0 for k in range(3))
+                for tag, gkw, lost in (("sz1", dict(size=1, max_nodes=None), None), ("sz3", dict(size=3, max_nodes=None), None),
+                                       ("sz1-lost", dict(size=1, max_nodes=None), "job_batch_2.sh")):
+                    if tier == "quick" and tag != "sz1" and (gi + f) % 3:
+                        continue
+                    extra = ["-s", "{in}/groups2.json"] if with_groups_file else []
+                    actors = [rec_actor(3), dict(name="resub", argv=resub_argv(1, 1, 0) + extra, host="login1", guard="complete"),
+                              dict(name="rec2", argv=["jade", "try-submit-jobs", "{out}"], host="login2", guard="idle_incomplete", after="resub", repeat=5)]
+                    sc = mk_scen(bb, gkw, cancel=cancel, actors=actors)
+                    sc["exit_codes"] = {S.NAMES[i]: [c, 0] for i, c in enumerate(ec) if c}
+                    sc["exit_by_epoch"] = True
+                    if lost:
+                        sc["refuse_scripts"] = [lost]
+                    if with_groups_file:
+                        sc2 = copy.deepcopy(sc)
+                        sc2["groups"][0].update(walltime="0:07:00", slurm={"partition": "resub", "mem": "9G"}, nproc=1, verbose=True)
+                        sc["aux_files"] = {"groups2.json": S.groups_file_text(sc2)}
+                        sc["resubmit_groups"] = sc2["groups"]
+                    tasks.append(dict(id=f"{prefix}-resub-g3.{gi}-f{f}-c{cancel[0]}-{tag}{'-s' if with_groups_file else ''}", scen=sc,
+                                      oracles=["Obs"] + oracles, budget=(0, 0), cls="resubmission-slice"))
+    return tasks
 
 
 def c13_tasks(tier):
@@ -1237,6 +1281,11 @@ def c11_tasks(tier):
                              budget=(0, 1) if tier == "quick" else (0, 1), fault=dict(plan="c11", victims=victims),
                              cls=f"fault-in-round+{lockmode}")
                     tasks.append(t)
+                if tier == "quick" and lockmode == "never_break":
+                    # all batches in flight at once: a failing status query in a round that has nothing to submit
+                    sc2 = mk_scen(bb, dict(size=1, max_nodes=None), actors=actors, level=2, lockmode=lockmode)
+                    tasks.append(dict(id=f"c11-{g}-sz1-mxN-{lockmode}-squeue", scen=sc2, oracles=["Obs", "C11"], budget=(0, 1),
+                                      fault=dict(plan="c11", kinds=["squeue", "sbatch"]), cls=f"fault-in-round+{lockmode}"))
                 if tier == "thorough":
                     tasks += shard([dict(id=f"c11-{g}-{tag}-{lockmode}-p1", scen=sc, oracles=["Obs", "C11"], budget=(1, 1),
                                          fault=dict(plan="c11", victims=["login", "n"], kinds=["kill"]), cls=f"fault-in-round+{lockmode}")], 8)
